@@ -2,6 +2,7 @@ package rangeproof
 
 import (
 	"fmt"
+	"math"
 	"strconv"
 
 	"github.com/privacybydesign/gabi/big"
@@ -216,6 +217,11 @@ func newWithParams(index, sign int, a uint, k *big.Int, split SquareSplitter, nS
 	}
 	if sign != 1 && sign != -1 {
 		return nil, ErrUnsupportedSign
+	}
+	// The factor is used as an int64 below: larger values would wrap around to negative ones, and
+	// the proof would be about another statement than the one it is reported to prove.
+	if a > math.MaxInt64 {
+		return nil, errors.New("factor too large")
 	}
 
 	var exp *big.Int
